@@ -219,7 +219,7 @@ impl Prop for C30 {
     type Scn = Scn;
     fn runs(tier: Tier) -> u64 {
         match tier {
-            Tier::Quick => 40_000,
+            Tier::Quick => 60_000,
             Tier::Thorough => 2_000_000,
         }
     }
